@@ -86,12 +86,13 @@ def sched_parts(pid: str, tier: str):
         parts.append(Part("setup-histories-len3-N2", P(run_c11, HCfg(N=2, length=3, flavours="s")), {"N": 2, "length": 3, "what": "an already-set-up node is not entered again"}, 900, 8, ["w_reuse"], HIST_FUNCS))
         from harness.history import run_c15
 
-        parts.append(Part("executor-histories-len3", P(run_c15, HCfg(length=3, flavours="sa", ops="exec")), {"length": "3+1", "operations": "call, executor create (whole / target), run, failing run", "what": "an executor re-run after a failed run enters every selected node (or refuses)"}, 900, 8, ["w_final_call", "w_rerun_after_failure"], HIST_FUNCS))
+        parts.append(Part("executor-histories-len3", P(run_c15, HCfg(length=3, flavours="sa", ops="exec")), {"length": "3+1", "operations": "call, executor create (whole / target), run, failing run", "what": "an executor re-run after a failed run enters every selected node (or refuses)"}, 900, 8, ["w_final_call", "w_rerun_after_failure|w_refused_after_failure"], HIST_FUNCS))
         if not q:
             mk("whole-run-N4-selection", Cfg(N=4, resources="tm", selection=True, sym_seq=False, monitors=mons), base_req, 1500, 9)
     elif pid == "C04":
         mons = ("C04",)
         mk("whole-run-N3", Cfg(N=3, resources="tma", flavours="sa", routes="dac", monitors=mons), base_req, 600)
+        mk("whole-run-N3-nested", Cfg(N=3, resources="tma", max_async=1, nested=True, sym_seq=False, monitors=mons), base_req, 600)
         from harness.history import HCfg, run_c11
 
         # main-thread nodes run on the invoking (event-loop) thread in every operation, setup() included: real threads, real loop
@@ -101,8 +102,11 @@ def sched_parts(pid: str, tier: str):
             mk("whole-run-N4", Cfg(N=4, resources="tma", max_async=1, monitors=mons), base_req, 1500, 9)
     elif pid == "C05":
         mons = ("C05",)
-        mk("whole-run-N3", Cfg(N=3, resources="tma", routes="dpt", monitors=mons), base_req, 600)
+        mk("whole-run-N3", Cfg(N=3, resources="tma", routes="dpts", monitors=mons), base_req, 600)
         mk("whole-run-N3-nested", Cfg(N=3, resources="tm", nested=True, monitors=mons), base_req, 600)
+        # sub-graph executions (executor selections, DAG.setup) read the same flags
+        mk("whole-run-N3-selection", Cfg(N=3, resources="t", selection=True, monitors=mons), base_req, 600)
+        mk("setup-run-N3-selection", Cfg(N=3, resources="tm", selection=True, setup_call=True, monitors=mons), ["w_returned", "w_setup_call", "w_parallel"], 600)
         if not q:
             mk("whole-run-N4", Cfg(N=4, resources="tma", max_async=1, monitors=mons), base_req, 1500, 9)
     elif pid == "C06":
@@ -110,6 +114,8 @@ def sched_parts(pid: str, tier: str):
         mk("whole-run-N3-prio", Cfg(N=3, resources="tm", sym_prio=True, routes="dcpt", warmup=True, monitors=mons), base_req + ["w_warmup"], 600)
         mk("whole-run-N3-prio-nested", Cfg(N=3, resources="t", sym_prio=True, sym_seq=False, nested=True, monitors=mons), base_req, 600)
         mk("whole-run-N3-prio-selection", Cfg(N=3, resources="t", sym_prio=True, sym_seq=False, selection=True, debug_leaf=True, monitors=mons), base_req + ["w_debug_in_subgraph"], 600)
+        mk("setup-run-N3-prio", Cfg(N=3, resources="tm", sym_prio=True, sym_seq=False, selection=True, setup_call=True, monitors=mons), ["w_returned", "w_setup_call", "w_parallel"], 600)
+        mk("setup-run-N5-prio-fixed-shapes", Cfg(N=5, resources="t", sym_prio=True, sym_seq=False, setup_call=True, fixed_shapes=SHAPES_N5, monitors=mons), ["w_returned", "w_setup_call", "w_parallel"], 600, 8)
         from harness.graph import GCfg, run_c07
 
         # the table the scheduler reads equals the property's definition also for DAGs that are not built by @dag
@@ -140,7 +146,7 @@ def sched_parts(pid: str, tier: str):
         from harness.history import HCfg, run_c15
 
         # "never returns normally while a selected active node has not run": executor runs after a failed run
-        parts.append(Part("executor-histories-len3", P(run_c15, HCfg(length=3, flavours="sa", ops="exec")), {"length": "3+1", "operations": "call, executor create (whole / target), run, failing run", "what": "an executor re-run after a failed run runs its complete selection or refuses"}, 900, 8, ["w_final_call", "w_rerun_after_failure"], HIST_FUNCS))
+        parts.append(Part("executor-histories-len3", P(run_c15, HCfg(length=3, flavours="sa", ops="exec")), {"length": "3+1", "operations": "call, executor create (whole / target), run, failing run", "what": "an executor re-run after a failed run runs its complete selection or refuses"}, 900, 8, ["w_final_call", "w_rerun_after_failure|w_refused_after_failure"], HIST_FUNCS))
         if not q:
             mk("whole-run-N3-two-faults-activation", Cfg(N=3, resources="tma", faults=2, activation=True, monitors=mons), base_req + ["w_fault"], 1500)
             mk("whole-run-N4", Cfg(N=4, resources="tma", max_async=1, faults=1, monitors=mons), base_req, 1500, 9)
@@ -148,11 +154,18 @@ def sched_parts(pid: str, tier: str):
         mons = ("C14",)
         mk("whole-run-N3-faults", Cfg(N=3, resources="tma", faults=2, flavours="sa", profiling=True, monitors=mons), base_req + ["w_fault", "w_fault_with_sibling", "w_raised_fault"], 600)
         mk("whole-run-N3-faults-nested", Cfg(N=3, resources="tm", faults=1, nested=True, sym_seq=False, monitors=mons), base_req + ["w_fault", "w_raised_fault"], 600)
+        from harness.faults import FCfg, run_c14_location
+
+        parts.append(Part("failure-report-names-usage-and-line", P(run_c14_location, FCfg()), {"usages of one node function": 3, "variants": "three call sites, nested DAG, function used by an earlier DAG, profiling on",
+                          "resources": "main-thread, thread, async-thread", "failing usage": "each"}, 300, 3, ["w_location_checked"],
+                          ["tawazi.node.node.ExecNode.execute", "tawazi.node.node.ExecNode.get_call_location", "tawazi.node.node.LazyExecNode.__call__", "tawazi._dag.helpers.async_execute"]))
         if not q:
             mk("whole-run-N4-faults", Cfg(N=4, resources="tma", max_async=1, faults=2, sym_seq=False, monitors=mons), base_req, 1500, 9)
     elif pid == "C17":
         mons = ("C17", "C01", "C03", "C04", "C06", "C09")
         mk("whole-run-N3-both-flavours", Cfg(N=3, resources="tma", flavours="sa", sym_prio=True, monitors=mons), base_req, 600)
+        # a failing node in the AsyncDAG flavour: the loop is not held while the other nodes of the run are still in flight
+        mk("whole-run-N3-async-faults", Cfg(N=3, resources="tma", flavours="a", faults=1, sym_seq=False, monitors=("C17", "C04", "C09")), base_req + ["w_fault"], 600)
         from harness.threads import TCfg, run_threads
 
         parts.append(Part("concurrent-awaits-2", P(run_threads, TCfg(mode="awaits", threads=2)), {"awaits": 2, "N": 3, "shapes": 3, "nodes": "async-thread (one optionally thread)", "max_concurrency": "1..3",
@@ -182,8 +195,9 @@ LARGER = {
 
 # larger fixed shapes (indices of the dependencies of node i): reconverging triangle next to two independent nodes, diamond
 # with a tail, fan-out, fan-in, two chains that join
-# diamond; triangle with an independent node; root with a reconverging pair below one branch
-SHAPES_N4 = (((), (0,), (0,), (1, 2)), ((), (0,), (0, 1), ()), ((), (0,), (1,), (0, 2)))
+# diamond; triangle with an independent node; root with a reconverging pair below one branch; two roots, a join and a
+# top that uses the shared root again
+SHAPES_N4 = (((), (0,), (0,), (1, 2)), ((), (0,), (0, 1), ()), ((), (0,), (1,), (0, 2)), ((), (), (0, 1), (0, 2)))
 SHAPES_N5 = (((), (), (), (2,), (2, 3)), ((), (0,), (0,), (1, 2), (3,)), ((), (0,), (0,), (0,), (0,)), ((), (), (), (), (0, 1, 2, 3)),
              ((), (0,), (), (2,), (1, 3)))
 # two diamonds in a row; a wide diamond; three roots feeding two joins
@@ -223,10 +237,11 @@ def graph_parts(pid: str, tier: str):
         if not q:
             parts.append(Part("table-N5", P(run_c07, GCfg(N=5, relabel=True, debug=False, selection=False)), {"N": 5, "labelings": 120}, 1500, 6, ["w_diamond"], GRAPH_FUNCS))
     elif pid == "C12":
+        parts.append(Part("closure-N4-reconverging", P(run_c12, GCfg(N=4, fixed_shapes=SHAPES_N4)), {"N": 4, "shapes": "diamond, triangle + independent node, reconverging pair below a branch, two roots with join and top"}, 900, 6, ["w_error_case", "w_proper_subgraph", "w_all_three"], GRAPH_FUNCS))
         parts.append(Part("closure-N3", P(run_c12, GCfg(N=3, indexed=True)), {"N": 3, "R,X,T": "None, [], singletons, pairs, shared tag, unknown alias (T)", "alias forms": "reference / id / tag, tag clashing with an id"}, 600, 5, ["w_error_case", "w_proper_subgraph", "w_all_three"], GRAPH_FUNCS))
         from harness.history import HCfg, run_c15
 
-        parts.append(Part("executor-histories-len3", P(run_c15, HCfg(length=3, flavours="s", ops="exec")), {"length": "3+1", "operations": "call, executor create (whole / target), run, failing run", "what": "returned values of an executor re-run after a failed run are the real values of the whole selection (or it refuses)"}, 900, 8, ["w_final_call", "w_rerun_after_failure"], HIST_FUNCS))
+        parts.append(Part("executor-histories-len3", P(run_c15, HCfg(length=3, flavours="s", ops="exec")), {"length": "3+1", "operations": "call, executor create (whole / target), run, failing run", "what": "returned values of an executor re-run after a failed run are the real values of the whole selection (or it refuses)"}, 900, 8, ["w_final_call", "w_rerun_after_failure|w_refused_after_failure"], HIST_FUNCS))
         if not q:
             parts.append(Part("closure-N3-setup", P(run_c12, GCfg(N=3, setup=True, indexed=True, combined=True)), {"N": 3, "setup": "first node optionally a setup node, optionally already set up"}, 1500, 5, ["w_error_case"], GRAPH_FUNCS))
     elif pid == "C13":
@@ -339,8 +354,8 @@ def history_parts(pid: str, tier: str):
     elif pid == "C15":
         b = {"programs": 3, "operations": "call (default omitted / supplied), failing call, executor create (whole / target), run, failing run, compose + call of the composed DAG, config_from_dict",
              "final operation": "a call with fresh symbolic arguments"}
-        parts.append(Part("histories-len3", P(run_c15, HCfg(length=3, flavours="s")), dict(b, length="3+1"), 900, 8, ["w_final_call", "w_failed_call", "w_refused_rerun", "w_rerun_after_failure", "w_compose", "w_config"], HIST_FUNCS))
-        parts.append(Part("histories-len3-async", P(run_c15, HCfg(length=3, flavours="a")), dict(b, length="3+1", flavour="async"), 900, 8, ["w_final_call", "w_rerun_after_failure"], HIST_FUNCS))
+        parts.append(Part("histories-len3", P(run_c15, HCfg(length=3, flavours="s")), dict(b, length="3+1"), 900, 8, ["w_final_call", "w_failed_call", "w_refused_rerun", "w_rerun_after_failure|w_refused_after_failure", "w_compose", "w_config"], HIST_FUNCS))
+        parts.append(Part("histories-len3-async", P(run_c15, HCfg(length=3, flavours="a")), dict(b, length="3+1", flavour="async"), 900, 8, ["w_final_call", "w_rerun_after_failure|w_refused_after_failure"], HIST_FUNCS))
         from harness.history import run_c18
 
         parts.append(Part("cache-executors-N2", P(run_c18, HCfg(N=2, length=3, flavours="s")), {"N": 2, "what": "an executor started from a cache refuses a second run; a restart from another instance's cache does not change what later calls of this instance see"}, 900, 8, ["w_deps_of_restart", "w_foreign_cache"], HIST_FUNCS))
